@@ -1,11 +1,15 @@
 package main
 
 func init() {
+	// A case is a short, mostly sequential exchange over loopback; with the
+	// default GOMAXPROCS (=cores) per process the 16 shards oversubscribe the
+	// machine and spend most of their time in the scheduler.
+	few := []string{"GOMAXPROCS=2"}
 	plans["C09"] = Plan{Pkg: pkg("C09"), Steps: []Step{
 		// not a rapid test: every process enumerates its share (VERIF_SHARD) of the
 		// policy x mode combinations, all truncation lengths each
-		{Run: "TestTruncationExhaustive", Quick: 1, Thorough: 1, QShards: 10, TShards: 10, FullChecks: true},
-		{Run: "TestTamperServer", Quick: 4000, Thorough: 60000, QShards: 16, TShards: 16},
-		{Run: "TestTamperClient", Quick: 4000, Thorough: 60000, QShards: 16, TShards: 16},
+		{Run: "TestTruncationExhaustive", Quick: 1, Thorough: 1, QShards: 10, TShards: 10, FullChecks: true, Env: []string{"GOMAXPROCS=4"}},
+		{Run: "TestTamperServer", Quick: 4000, Thorough: 40000, QShards: 16, TShards: 16, Env: few},
+		{Run: "TestTamperClient", Quick: 4000, Thorough: 40000, QShards: 16, TShards: 16, Env: few},
 	}}
 }
